@@ -415,8 +415,8 @@ def gen_case(seed, i, mode):
     n = r.choice((5, 8, 12, 20, 30))
     base = [G.gen_request(r, spec, uid='q%d' % j) for j in range(r.choice((3, 4, 6, 8)))]
     reqs = [{'kind': q['kind'], 'source': q['source'], 'position': q['position'], 'file': q['file']} for q in base]
-    reqs += G.cycle_requests(r, spec)[:6]
-    reqs += G.relative_requests(r, spec)[:4]
+    reqs += G.cycle_requests(r, spec)[:8]
+    reqs += G.relative_requests(r, spec)[:6]
     orders = []
     for _ in range(r.choice((2, 3, 4))):
         orders.append([r.randrange(len(reqs)) for _ in range(n)])
